@@ -60,7 +60,8 @@ def build(kind, seed, N=200):
         g2 = rng.uniform(0.05, 1.0, nf)
         XY = np.sqrt(g2 * XX * YY) * np.exp(1j * rng.uniform(-3, 3, nf)) if iscsd else XX.astype(complex)
         f = np.sort(rng.uniform(0.01, 0.45, nf)) * fs
-        d = {"f": f, "r": np.full(nf, fs / 32), "b": f * 32 / fs, "L": np.full(nf, 32), "K": np.full(nf, K), "navg": np.full(nf, K),
+        rr = np.full(nf, fs / 32) * [1.0, 1.0, 1.013][seed % 3]        # a result's r need not be fs/L (cf. single-bin fres requests)
+        d = {"f": f, "r": rr, "b": f / rr, "L": np.full(nf, 32), "K": np.full(nf, K), "navg": np.full(nf, K),
              "D": [np.arange(K) * 3 for _ in range(nf)], "O": np.zeros(nf), "XX": XX, "YY": YY, "XY": XY,
              "S12": np.full(nf, 256.0), "S2": np.full(nf, 12.0), "M2": rng.uniform(0, 1, nf), "compute_t": np.zeros(nf)}
         return SpectrumResult(d, {"order": order}, iscsd, fs)
@@ -75,7 +76,11 @@ def build(kind, seed, N=200):
         kw["band"] = (float(lo), float(f[min(len(f) - 1, len(f) // 3 + 1 + seed % 3)]))
     an = SpectrumAnalyzer(data, fs, **kw)
     if kind.endswith("single"):
-        return an.compute_single_bin((0.05 + 0.04 * (seed % 10)) * fs, L=[N, N // 2, 17, 1][seed % 4])
+        Ls = [N, N // 2, 17, 1][seed % 4]
+        if seed % 3 == 2 and Ls > 1:
+            # requested through a resolution that does not divide the sampling rate (L is its rounding; r stays as requested)
+            return an.compute_single_bin((0.05 + 0.04 * (seed % 10)) * fs, fres=fs / (Ls + [0.37, -0.41][seed % 2]))
+        return an.compute_single_bin((0.05 + 0.04 * (seed % 10)) * fs, L=Ls)
     return an.compute()
 
 
